@@ -360,6 +360,13 @@ class DirectObjectAccess:
                         pass
             return False, False, None
         else:
+            if is_get_descriptor and type(attr) is classmethod \
+                    and type(attr.__func__) not in ALLOWED_DESCRIPTOR_ACCESS \
+                    and hasattr(type(attr.__func__), '__get__'):
+                # A classmethod passes the access on to a descriptor it wraps
+                # (e.g. @classmethod on top of @property, Python 3.9-3.12),
+                # which means code execution as well.
+                return True, True, None
             if is_get_descriptor and type(attr) not in ALLOWED_DESCRIPTOR_ACCESS:
                 if isinstance(attr, property):
                     if hasattr(attr.fget, '__annotations__'):
